@@ -396,6 +396,13 @@ func genJsonDec(g *G, tier string, emit func(string)) {
 			emit(hexOrDash(append(append([]byte(`{"\u`), d...), []byte(`":1}`)...)))
 		}
 	}
+	// every kind of token where a key is due, in the first, second and third entry of an object, at the top and nested
+	// (a key must be a string wherever it stands)
+	for _, k := range []string{`1`, `-1`, `1.5`, `null`, `true`, `false`, `[]`, `{}`, `"k"`, `x`, `,`, `:`} {
+		for _, doc := range []string{`{K:1}`, `{"a":1,K:2}`, `{"a":1, K :2}`, `{"a":1,"b":2,K:3}`, `{"a":{"b":1,K:2}}`, `[{"a":[1],K:0}]`, `{"a":1,K}`, `{"a":"x",K:"y","c":3}`} {
+			emit(hexOrDash([]byte(strings.Replace(doc, "K", k, 1))))
+		}
+	}
 	em := func(b []byte) { emit(hex.EncodeToString(b)) }
 	// (a) all strings up to L over the JSON alphabet, as a prefix tree: a prefix is extended
 	// only while the decoder has not definitively rejected it
